@@ -313,6 +313,43 @@ func invcdfReplay(in io.Reader, raw bool, args []string) (*Summary, error) {
 			}
 		}
 	}()
+	// stats.Rand of the built-in discrete distributions: at every drawn value the empirical CDF is within the DKW band of
+	// the distribution's CDF (an atom where the distribution has none shows as half its mass)
+	func() {
+		defer func() {
+			if r := recover(); r != nil {
+				sum.viol("panic", json.RawMessage(`{"builtin":"rand-discrete"}`), "panic: %v", r)
+			}
+		}()
+		const N = 40000
+		band := math.Sqrt(math.Log(2e9) / (2 * N))
+		for _, d := range []stats.DistCommon{stats.UDist{N1: 3, N2: 4}, stats.UDist{N1: 5, N2: 5}, stats.UDist{N1: 2, N2: 9}, stats.UDist{N1: 4, N2: 3, T: []int{2, 1, 3, 1}},
+			stats.BinomialDist{N: 10, P: 0.3}, stats.BinomialDist{N: 3, P: 0.5}, stats.HypergeometicDist{N: 20, K: 7, Draws: 5}} {
+			gen := stats.Rand(d)
+			rr := rand.New(rand.NewSource(baseSeed + 177))
+			xs := make([]float64, N)
+			for i := range xs {
+				xs[i] = gen(rr)
+			}
+			sort.Float64s(xs)
+			worst, at := 0.0, 0.0
+			for i := 0; i < N; {
+				j := i
+				for j < N && xs[j] == xs[i] {
+					j++
+				}
+				F, Fl := d.CDF(xs[i]), d.CDF(math.Nextafter(xs[i], math.Inf(-1)))
+				if dev := math.Max(math.Abs(float64(j)/N-F), math.Abs(float64(i)/N-Fl)); dev > worst {
+					worst, at = dev, xs[i]
+				}
+				i = j
+			}
+			sum.Checks++
+			if !(worst <= band) {
+				sum.viol("Rand-distribution", json.RawMessage(`{"builtin":"rand-discrete"}`), "%+v: empirical CDF of %d draws is %.4f off the CDF at %v (DKW band %.4f)", d, N, worst, at, band)
+			}
+		}
+	}()
 	// built-in discrete distributions through the generic routine
 	func() {
 		defer func() {
